@@ -233,11 +233,24 @@ func (tr *fnTrans) applyContractSig(c *Contract, key string, args []Term, sig *t
 			tr.spec(e.E, post0)
 		}
 		allocPre := tr.alloc
-		newAlloc := tr.declare(tr.fresh("alloc"), SInt)
-		tr.hyp(app("<=", allocPre, newAlloc))
-		tr.alloc = newAlloc
-		tr.bump("*")
+		if !c.NoAlloc {
+			newAlloc := tr.declare(tr.fresh("alloc"), SInt)
+			tr.hyp(app("<=", allocPre, newAlloc))
+			tr.alloc = newAlloc
+			tr.bump("*")
+		}
 		for _, m := range tr.mapOrder {
+			if c.NoAlloc {
+				hit := false
+				for _, mt := range mods {
+					if mt.heap == m {
+						hit = true
+					}
+				}
+				if !hit {
+					continue
+				}
+			}
 			h0 := tr.curHeap(m)
 			n := tr.fresh(m)
 			tr.decl(fmt.Sprintf("(declare-const %s %s)", n, heapSortName(tr.maps[m])))
